@@ -163,7 +163,8 @@ def build_driver():
             shutil.copy(os.path.join(COQ, f), d)
         for f in srcs:
             shutil.copy(os.path.join(DRIVER_SRC, f), d)
-        order = ["model.mli", "model.ml", "sexp.ml", "conv.ml"] + [f for f in srcs if f not in ("sexp.ml", "conv.ml", "main.ml")] + ["main.ml"]
+        rest = sorted([f for f in srcs if f not in ("sexp.ml", "conv.ml", "main.ml")], key=lambda f: (f != "litcmd.ml", f))
+        order = ["model.mli", "model.ml", "sexp.ml", "conv.ml"] + rest + ["main.ml"]
         p = run(["ocamlfind", "ocamlopt", "-O3", "-w", "-a", "-package", "str"] + order + ["-o", "svd"], cwd=d, check=False)
         if p.returncode != 0:
             raise BuildError("driver does not build:\n" + p.stdout[-4000:])
